@@ -82,9 +82,8 @@ theorem nameWith_preserves_meaning (S : Setting) (fc : Facts) (x : Flatten.Ext) 
     (positions of the root spelled canonically and not inside the `$ref` member itself; all positions of auxiliary
     documents).  Hypotheses: object keys canonical as tokens, no `$ref` of the bundle designates a position inside the
     rewritten `$ref` member, and the hop bound is adequate (`Adequate`: every chain that ends at all ends within `hops`).
-    Non-vacuity is not shown by an `example` here (`keyTokens` on a literal does not reduce in the kernel, and `Adequate`
-    quantifies over all positions); the abstract statement `Proofs.Retarget.RSetting.retarget_preserves` carries the
-    argument, and the certificate checker validates the rewritten bundles per run. -/
+    Non-vacuity: `Properties/C01RetargetExample.lean` meets every hypothesis on the chain `K → P → N` (on token paths:
+    `keyTokens` on a string literal does not reduce in the kernel), for this theorem and for `inline_preserves_meaning`. -/
 theorem retarget_preserves_meaning (d d' : J) (key v' : String) (h : Replace.updateRef d key v' = .ok d')
     (T : List (String × Pos)) (rest : Bundle) (a1 : J)
     (hget : Spec.Pointer.get d (Replace.keyTokens key) = some a1) (hv1 : Doc.refStr a1 ≠ "") (hv2 : v' ≠ "")
